@@ -50,3 +50,10 @@ ADDRS = [b"a@x.org", b"bob@example.com", b"\"a b\"@example.com", b"u+tag@sub.exa
          b"x@[127.0.0.1]", b"-f@example.com", b"a.b.c@d.e", b"\"<>\"@example.com"]
 
 MSGS = [b"", b"hi\r\n", b"Subject: x\r\n\r\nbody\r\n", b".\r\n", b"a\r\n.\r\nb", b"caf\xc3\xa9\r\n", b"\xff\x00bin", b"x" * 3000, b"\r\n.\r\nQUIT\r\n", b"line\n.line\n"]
+
+
+def big_reply(rng, code, first=b"srv.example"):
+    """a long multi-line reply (RFC 5321 puts no bound on the number of lines): > 512 and > 4096 octets in total"""
+    n = rng.choice([30, 50, 120])
+    lines = [first] + [bytes(rng.choice(b"abcXYZ 09-=.") for _ in range(rng.randint(5, 90))) for _ in range(n)]
+    return reply(code, lines), lines
